@@ -279,3 +279,101 @@ func (c *Ctx) valueFields(fn *ssa.Function, v ssa.Value, use ssa.Instruction) ma
 	}
 	return nil
 }
+
+// valueOrigin is where a value ultimately comes from when followed backwards through
+// merges, result extraction and the successful returns of repo helpers.
+type valueOrigin struct {
+	fn   *ssa.Function
+	v    ssa.Value
+	call ssa.CallInstruction // non-nil: result #idx of this call (callee outside the repo, or the traced target)
+	idx  int
+}
+
+// originsOf follows v backwards: φ → every edge; result #k of a call to a repo function g
+// (other than stop) → result #k at every return of g that can be a successful one. A call
+// to `stop`, a call outside the repo, or any other value is an origin. Depth-bounded.
+func (c *Ctx) originsOf(fn *ssa.Function, v ssa.Value, stop *ssa.Function, depth int) []valueOrigin {
+	seen := map[ssa.Value]bool{}
+	var out []valueOrigin
+	var walk func(fn *ssa.Function, v ssa.Value, depth int)
+	walk = func(fn *ssa.Function, v ssa.Value, depth int) {
+		if seen[v] {
+			return
+		}
+		seen[v] = true
+		switch x := v.(type) {
+		case *ssa.Phi:
+			for _, e := range x.Edges {
+				walk(fn, e, depth)
+			}
+			return
+		case *ssa.Extract:
+			if call, ok := x.Tuple.(*ssa.Call); ok {
+				g := callee(call)
+				if g != nil && g != stop && c.W.InRepo(g) && len(g.Blocks) > 0 && depth > 0 {
+					n := 0
+					for _, r := range returnsOf(g) {
+						if x.Index < len(r.Results) && c.mayBeSuccessRet(g, r) {
+							walk(g, r.Results[x.Index], depth-1)
+							n++
+						}
+					}
+					if n > 0 {
+						return
+					}
+				}
+				out = append(out, valueOrigin{fn: fn, v: v, call: call, idx: x.Index})
+				return
+			}
+		case *ssa.Call:
+			g := callee(x)
+			if g != nil && g != stop && c.W.InRepo(g) && len(g.Blocks) > 0 && depth > 0 && g.Signature.Results().Len() == 1 {
+				n := 0
+				for _, r := range returnsOf(g) {
+					walk(g, r.Results[0], depth-1)
+					n++
+				}
+				if n > 0 {
+					return
+				}
+			}
+			out = append(out, valueOrigin{fn: fn, v: v, call: x, idx: 0})
+			return
+		}
+		out = append(out, valueOrigin{fn: fn, v: v})
+	}
+	walk(fn, v, depth)
+	return out
+}
+
+// valueWith: v denotes a struct value built as "copy of base with fields overwritten"
+// (`t := x.Token; t.Type = ...; t.Literal = ...`), either in fn itself or by a repo helper
+// that returns such a value (the helper's base and field terms are rewritten into fn's
+// namespace). Returns the base term and the overwritten fields; over == nil when v is not
+// of that shape.
+func (c *Ctx) valueWith(fn *ssa.Function, v ssa.Value) (string, map[string]string) {
+	if base, over := c.withFields(fn, c.term(fn, v)); over != nil {
+		return base, over
+	}
+	call, ok := unwrapIface(v).(*ssa.Call)
+	if !ok {
+		return "", nil
+	}
+	g := callee(call)
+	if g == nil || !c.W.InRepo(g) || g == fn || len(g.Blocks) == 0 {
+		return "", nil
+	}
+	rets := returnsOf(g)
+	if len(rets) != 1 || len(rets[0].Results) != 1 {
+		return "", nil
+	}
+	base, over := c.valueWith(g, rets[0].Results[0])
+	if over == nil {
+		return "", nil
+	}
+	out := map[string]string{}
+	for k, t := range over {
+		out[k] = c.substParams(fn, call, t)
+	}
+	return c.substParams(fn, call, base), out
+}
